@@ -141,6 +141,8 @@ impl<
         conflict: u64,
         expiration: Time,
     ) -> Result<(), CacheError> {
+        #[cfg(transparencies_stretto_verif)]
+        crate::verif::sched::point("store:insert:enter");
         let mut data = self.shards[(key as usize) % NUM_OF_SHARDS].write();
 
         match data.get(&key) {
@@ -185,6 +187,8 @@ impl<
         conflict: u64,
         expiration: Time,
     ) -> Result<UpdateResult<V>, CacheError> {
+        #[cfg(transparencies_stretto_verif)]
+        crate::verif::sched::point("store:update:enter");
         let mut data = self.shards[(key as usize) % NUM_OF_SHARDS].write();
         match data.get_mut(&key) {
             None => Ok(UpdateResult::NotExist(val)),
@@ -211,6 +215,8 @@ impl<
     }
 
     pub fn try_remove(&self, key: &u64, conflict: u64) -> Result<Option<StoreItem<V>>, CacheError> {
+        #[cfg(transparencies_stretto_verif)]
+        crate::verif::sched::point("store:remove:enter");
         let mut data = self.shards[(*key as usize) % NUM_OF_SHARDS].write();
 
         match data.get(key) {
